@@ -1,2 +1,45 @@
-(* C03 - placeholder while the proofs are being written *)
-Require Import GenEn.
+(* C14, English half - rule application is total; the seen-rule gate only removes; 'nb' marks do not matter; the unary
+   rules return exactly the configured targets, in order.  Property theorems only (collected by P_C14.v).
+   Purity and reproducibility are structural here: `GenEn.apply_binary_rules` is a Gallina function of its arguments
+   (no state, no hash order - the loop over shared variables follows the insertion order of the first dictionary). *)
+From Coq Require Import List NArith Bool.
+Import ListNotations.
+Require Import Cat CatFacts Unify GramPrims GenTables GenEn EnSpec EnLemmas EnSound EnPure.
+Open Scope N_scope.
+
+Notation kc := (clear_features GenEn.key_clear).
+Notation sc := (clear_features GenEn.seen_clear).
+
+(* never an exception on well-formed categories of the English feature system, whatever the seen-rule set *)
+Theorem C14_en_total : forall x y seen, wf puncts x -> wf puncts y -> one_system x y ->
+  exists rs, GenEn.apply_binary_rules x y seen = Ok_ rs.
+Proof. exact en_total. Qed.
+
+(* with a set of seen rules: exactly the unrestricted result when the pair (X and nb erased) is in the set, else nothing *)
+Theorem C14_en_seen_filter : forall x y S,
+  GenEn.apply_binary_rules x y (Some S) = if seen_mem (sc x, sc y) S then GenEn.apply_binary_rules x y None else Ok_ [].
+Proof. exact en_seen_filter. Qed.
+
+(* results do not depend on 'nb' marks *)
+Theorem C14_en_nb_invariant : forall x y, GenEn.apply_binary_rules x y None = GenEn.apply_binary_rules (kc x) (kc y) None.
+Proof. exact en_nb_invariant. Qed.
+
+(* unary rules: never an exception (any category, any table) ... *)
+Theorem C14_en_unary_total : forall x t, exists rs, GenEn.apply_unary_rules x t = Ok_ rs.
+Proof. exact en_unary_total. Qed.
+
+(* ... and exactly the targets configured for x, in order (none when x is not a key); label 'tr' exactly when x is an
+   atomic NP/PP and the target is type-raised, otherwise 'lex'; symbol <un>; head left *)
+Theorem C14_en_unary_exact : forall x t,
+  exists rs, GenEn.apply_unary_rules x t = Ok_ rs /\ map rcat rs = targets x t /\ Forall (unary_result x) rs.
+Proof. exact en_unary_exact. Qed.
+
+Example seen_clear_is_X_nb : GenEn.seen_clear = [[88]; [110; 98]].        (* 'X', 'nb' *)
+Proof. reflexivity. Qed.
+Example ex_unary :
+  let NP := Atom n_NP FNone in let S := Atom n_S FNone in let N := Atom n_N FNone in
+  let tr := Fun S sl (Fun S bs NP) in
+  GenEn.apply_unary_rules NP [(N, [NP]); (NP, [tr; Fun NP sl NP])] =
+  Ok_ [{| rcat := tr; op_string := l_tr; op_symbol := y_un; head_is_left := true |};
+       {| rcat := Fun NP sl NP; op_string := l_lex; op_symbol := y_un; head_is_left := true |}].
+Proof. vm_compute. reflexivity. Qed.
